@@ -106,6 +106,14 @@ cfg_not_miri! {
                     self.heap.len()
                 }
 
+                pub(crate) fn peek_time(&self) -> Option<SimTime> {
+                    if let Some(event) = self.zero_queue.front() {
+                        Some(event.time)
+                    } else {
+                        self.heap.peek().map(|event| event.time)
+                    }
+                }
+
                 pub(crate) fn new_with(options: &Builder) -> Self {
                     Self {
                         heap: BinaryHeap::with_capacity(64),
@@ -197,6 +205,10 @@ cfg_not_miri! {
 
                 pub(crate) fn is_empty(&self) -> bool {
                     self.inner.is_empty()
+                }
+
+                pub(crate) fn peek_time(&self) -> Option<SimTime> {
+                    self.inner.peek_time().map(SimTime::from_duration)
                 }
 
                 pub(crate) fn new_with(options: &Builder) -> Self {
@@ -339,6 +351,14 @@ cfg_miri! {
 
             pub(crate) fn len_nonzero(&self) -> usize {
                 self.heap.len()
+            }
+
+            pub(crate) fn peek_time(&self) -> Option<SimTime> {
+                if let Some(event) = self.zero_queue.front() {
+                    Some(event.time)
+                } else {
+                    self.heap.peek().map(|event| event.time)
+                }
             }
 
             pub(crate) fn new_with(options: &Builder) -> Self {
